@@ -2,7 +2,7 @@
    [exact] of a lemma proved in ExprProofs*.v and followed by Print Assumptions.
    The model (ExprModel.v) describes Template.hpp / QExpression.hpp after
    findings/D1_precedence_after_recursion.patch (/repo d87efe1), findings/D14_remainder_by_zero.patch
-   (/repo 8e23fd8) and D47 (/repo 3d5d94b, x % -1 = 0). *)
+   (/repo 8e23fd8), D47 (/repo 3d5d94b, x % -1 = 0) and findings/D90 (whole numbers compared by value). *)
 From Coq Require Import NArith ZArith QArith List.
 From Qv Require Import gen.Tables_expr ExprModel ExprProofs ExprProofs2 ExprProofs3 ExprProofs4.
 Import ListNotations.
@@ -53,14 +53,16 @@ Theorem c04_tiebreak_neutral :
 Proof. exact (conj tiebreak_add_sub_Z (conj tiebreak_add_sub_Q tiebreak_mul_div_Q)). Qed.
 Print Assumptions c04_tiebreak_neutral.
 
-(* INTEGER FRAGMENT.  On a tree whose leaves are naturals / integers and whose
-   intermediate results stay inside (-2^63, 2^63) the evaluator returns the exact
-   Z value [z] of [zspec]; the kind is Natural iff [u] (unsigned -> signed promotion:
-   + * keep Natural only for two Naturals, - also needs a non-negative result,
-   % always yields Integer, ^ yields Integer only for a negative base and odd exponent,
-   comparisons / logic yield Natural 0/1). *)
+(* INTEGER FRAGMENT.  [zspec] is the exact value over Z of a tree under THE GUARD (ExprProofs3.zspec):
+   leaves are Naturals anywhere below 2^64 or Integers inside (-2^63, 2^63); operands and results of
+   + - * % ^ stay inside (-2^63, 2^63); operands of < <= > >= && || == != may be any Natural below 2^64
+   (after findings/D90 whole numbers are compared by value) or Integer inside (-2^63, 2^63).
+   The evaluator returns exactly [z]; the kind is Natural iff [u] (unsigned -> signed promotion:
+   + * keep Natural only for two Naturals, - also needs a non-negative result, % always yields Integer,
+   ^ yields Integer only for a negative base and odd exponent, comparisons / logic yield Natural 0/1).
+   [okw u z]: 0 <= z < 2^64 for a Natural, -2^63 < z < 2^63 for an Integer. *)
 Theorem c04_integer_exact : forall e sub t z u, zspec t = Some (z, u) ->
-  okv u z /\
+  okw u z /\
   forall c, tree_eval_ctx (fun ctx o => leaf_value e sub ctx op_NoOp o) (apply_op e) c t = Ok (enc u z).
 Proof. exact integer_exact. Qed.
 Print Assumptions c04_integer_exact.
